@@ -464,29 +464,117 @@ theorem rgbToHsv_finite (c : V3 ℝ) : (RgbFam.rgbToHsv c.lift).Finite := by
     have hM : M ≠ 0 := by intro h; linarith
     simp [hMm, hd, hM]; fin3
 
-/-- `Hsl ← Rgb`: behind `max ≠ min` the divisors are `max − min` and `max + min` resp. `(1 − max) + (1 − min)`; with components `≤ 1` the
-    last one is zero only for `max = min = 1`.  (Before the repair 4f36dd5 the divisor was `2 − (max + min)`, equal at ℝ, but `max + min`
-    *rounds* to 2 for an `f32` white that arrives as (1+ulp, 1−ulp, 1) — former finding `hsl-white-inf`, invisible to exact arithmetic.) -/
-theorem rgbToHsl_finite (c : V3 ℝ) (h0 : c.c0 ≤ 1) (h1 : c.c1 ≤ 1) (h2 : c.c2 ≤ 1) : (RgbFam.rgbToHsl c.lift).Finite := by
+/-- the `(max, min, sep, coeff)` block read at `PReal` on real inputs is the block read at ℝ -/
+theorem maxMinSep_lift (r g b : ℝ) :
+    RgbFam.maxMinSep (ok r) (ok g) (ok b) =
+      ⟨ok (RgbFam.maxMinSep r g b).max, ok (RgbFam.maxMinSep r g b).min, ok (RgbFam.maxMinSep r g b).sep, ok (RgbFam.maxMinSep r g b).coeff⟩ := by
+  unfold RgbFam.maxMinSep
+  by_cases h1 : g < r <;> by_cases h2 : r < b <;> by_cases h3 : g < b <;> by_cases h4 : b < g <;> by_cases h5 : b < r <;>
+    simp [h1, h2, h3, h4, h5]
+
+/-- the divisor `Rgb → Hsl` selects for the saturation, as the code associates it:
+    `if max + min > 1 { (1 − max) + (1 − min) } else { max + min }` -/
+noncomputable def hslDivisor (M m : ℝ) : ℝ := if 1 < M + m then (1 - M) + (1 - m) else M + m
+
+/-- **`Hsl ← Rgb` after the repair c404fc5: for every real rgb with `max ≠ min` the saturation is defined** -- either the selected
+    divisor is non-zero and the saturation is the quotient, or it is exactly zero, the guard `divisor == 0` fires and the saturation
+    is `0`; in neither case is a division by zero evaluated.  (`M`, `m`: the block's maximum and minimum of the components clamped at 0;
+    no range hypothesis.)  Before the repair the second case was `d / 0`: `rgbToHsl_unguarded_poison`. -/
+theorem rgbToHsl_sat_defined (c : V3 ℝ)
+    (hne : (RgbFam.maxMinSep (max c.c0 0) (max c.c1 0) (max c.c2 0)).max ≠ (RgbFam.maxMinSep (max c.c0 0) (max c.c1 0) (max c.c2 0)).min) :
+    let M := (RgbFam.maxMinSep (max c.c0 0) (max c.c1 0) (max c.c2 0)).max
+    let m := (RgbFam.maxMinSep (max c.c0 0) (max c.c1 0) (max c.c2 0)).min
+    (hslDivisor M m ≠ 0 ∧ (RgbFam.rgbToHsl c.lift).c1 = ok ((M - m) / hslDivisor M m)) ∨
+    (hslDivisor M m = 0 ∧ (RgbFam.rgbToHsl c.lift).c1 = ok 0) := by
+  intro M m
+  have hM : (RgbFam.maxMinSep (max c.c0 0) (max c.c1 0) (max c.c2 0)).max = M := rfl
+  have hm : (RgbFam.maxMinSep (max c.c0 0) (max c.c1 0) (max c.c2 0)).min = m := rfl
+  unfold RgbFam.rgbToHsl V3.lift
+  simp only [max0_ok, maxMinSep_lift, eqv_some]
+  rw [if_pos hne]
+  have e1 : (OfScientific.ofScientific 10 true 1 : ℝ) = 1 := by norm_num
+  have e0 : (OfScientific.ofScientific 0 true 1 : ℝ) = 0 := by norm_num
+  simp only [ofSci, add_some, sub_some, lt_some, e1, e0, hM, hm]
+  have hd : (if 1 < M + m then ok (1 - M + (1 - m)) else ok (M + m)) = ok (hslDivisor M m) := by
+    unfold hslDivisor; split_ifs <;> rfl
+  rw [hd]
+  by_cases h0 : hslDivisor M m = 0
+  · right; refine ⟨h0, ?_⟩
+    rw [if_pos ((eqv_some _ _).mpr h0)]
+  · left; refine ⟨h0, ?_⟩
+    rw [if_neg (fun h => h0 ((eqv_some _ _).mp h)), div_some_of_ne _ _ h0]
+
+/-- non-vacuity of `rgbToHsl_sat_defined`, both disjuncts occur: in gamut `(1, 0.5, 0)` the divisor is `1`;
+    out of gamut `(1.5, 0.5, 0.5)` it is `(1 − 1.5) + (1 − 0.5) = 0` -/
+example : hslDivisor 1 0 ≠ 0 ∧ hslDivisor 1.5 0.5 = 0 := by
+  unfold hslDivisor; constructor <;> norm_num
+
+/-- `Hsl ← Rgb` — **every** real input, negative and above 1 included (since the repair c404fc5): behind `max ≠ min` the divisor of
+    the hue is `max − min`, and the saturation is defined by `rgbToHsl_sat_defined` (selected divisor non-zero, or the guard answers 0) -/
+theorem rgbToHsl_finite_all (c : V3 ℝ) : (RgbFam.rgbToHsl c.lift).Finite := by
   unfold RgbFam.rgbToHsl V3.lift
   simp only [max0_ok]
-  obtain ⟨M, m, s, k, h, hle, hm0, hM1⟩ := maxMinSep_ok (max c.c0 0) (max c.c1 0) (max c.c2 0)
-  have hm : 0 ≤ m := hm0 (le_max_right _ _) (le_max_right _ _) (le_max_right _ _)
-  have hM : M ≤ 1 := hM1 (max_le h0 (by norm_num)) (max_le h1 (by norm_num)) (max_le h2 (by norm_num))
+  obtain ⟨M, m, s, k, h, hle, _, _⟩ := maxMinSep_ok (max c.c0 0) (max c.c1 0) (max c.c2 0)
   simp only [h, eqv_some]
   by_cases hMm : M = m
   · norm_num [hMm]; fin3
-  · have hlt : m < M := lt_of_le_of_ne hle (Ne.symm hMm)
-    have hd : M - m ≠ 0 := by intro h; apply hMm; linarith
-    have hs : M + m ≠ 0 := by intro h; linarith
-    have hs2 : (1:ℝ) - M + (1 - m) ≠ 0 := by intro h; linarith
-    norm_num [hMm, hd, hs, hs2]
-    split_ifs <;> fin3
+  · have hd : M - m ≠ 0 := by intro h; apply hMm; linarith
+    rw [if_pos hMm]
+    simp only [ofSci, add_some, sub_some, lt_some]
+    by_cases hs : (OfScientific.ofScientific 10 true 1 : ℝ) < M + m
+    · simp only [if_pos hs, eqv_some]
+      split_ifs with hz
+      · norm_num [hd]; fin3
+      · have hz' : (OfScientific.ofScientific 10 true 1 : ℝ) - M + (OfScientific.ofScientific 10 true 1 - m) ≠ 0 := by
+          intro e; apply hz; rw [e]; norm_num
+        norm_num [hd] at hz' ⊢; rw [div_some_of_ne _ _ hz']; fin3
+    · simp only [if_neg hs, eqv_some]
+      split_ifs with hz
+      · norm_num [hd]; fin3
+      · have hz' : M + m ≠ 0 := by intro e; apply hz; rw [e]; norm_num
+        norm_num [hd]; rw [div_some_of_ne _ _ hz']; fin3
 
-/-- the range hypothesis is needed: above 1 the divisor `2 − (max + min)` can vanish with `max ≠ min` -/
-theorem rgbToHsl_out_of_range_poison : (RgbFam.rgbToHsl (⟨1.5, 0.5, 0.5⟩ : V3 ℝ).lift).c1 = poison := by
+/-- `Hsl ← Rgb` for components `≤ 1` (the statement from before the repair c404fc5, kept: it is what the chains below use; it is
+    now the special case of `rgbToHsl_finite_all`).  With components `≤ 1` the divisor `(1 − max) + (1 − min)` is zero only for
+    `max = min = 1`, so there the guard never fires (`C02Rgb.rgbToHsl_guard_dead`).  (Before the repair 4f36dd5 the divisor was
+    `2 − (max + min)`, equal at ℝ, but `max + min` *rounds* to 2 for an `f32` white that arrives as (1+ulp, 1−ulp, 1) — former finding
+    `hsl-white-inf`, invisible to exact arithmetic.) -/
+theorem rgbToHsl_finite (c : V3 ℝ) (_h0 : c.c0 ≤ 1) (_h1 : c.c1 ≤ 1) (_h2 : c.c2 ≤ 1) : (RgbFam.rgbToHsl c.lift).Finite :=
+  rgbToHsl_finite_all c
+
+/-- the former witness `rgbToHsl_out_of_range_poison` (above 1 the divisor `(1 − max) + (1 − min)` vanishes with `max ≠ min`:
+    `Rgb(1.5, 0.5, 0.5)`, and in `f32` the Rec.2020 image `(1 + 2⁻²³, 1 − 2⁻²³, 1)` of an sRGB near-white, former finding
+    `hsl-white-inf-C07`) is now answered by the guard: saturation `0`, lightness `1`, the hue of the colour -/
+theorem rgbToHsl_out_of_range_guarded : RgbFam.rgbToHsl (⟨1.5, 0.5, 0.5⟩ : V3 ℝ).lift = (⟨0, 0, 1⟩ : V3 ℝ).lift := by
   unfold RgbFam.rgbToHsl RgbFam.maxMinSep RgbFam.max0 V3.lift
   norm_num
+
+/-- … and the guard is what does it: the quotient the unrepaired code evaluated there, `d / inverted_sum`, is poison -/
+theorem rgbToHsl_unguarded_poison :
+    (ok (1.5 - 0.5) : PReal) / (((1.0 : PReal) - ok 1.5) + ((1.0 : PReal) - ok 0.5)) = poison := by
+  norm_num
+
+/-- ℝ-free companion, decided by the kernel on Lean's IEEE `Float` by running the *model itself* at `f64`: for `max = 1 + 2⁻⁵²`,
+    `min = 1 − 2⁻⁵²` (and the third component anywhere between) `(1 − max) + (1 − min)` is exactly `+0` -- no rounding is involved,
+    `−2⁻⁵² + 2⁻⁵²` -- the unguarded quotient is `+inf`, and both branches of the repaired model return saturation `+0`, lightness `1` -/
+theorem hsl_divisor_zero_f64 :
+    let mx := Float.ofBits 0x3ff0000000000001
+    let mn := Float.ofBits 0x3feffffffffffffe
+    ((1.0 - mx) + (1.0 - mn)).toBits = 0 ∧ ((mx - mn) / ((1.0 - mx) + (1.0 - mn))).toBits = 0x7ff0000000000000 ∧
+    ∀ c ∈ ([⟨mx, mn, 1.0⟩, ⟨mx, 1.0, mn⟩, ⟨1.0, mx, mn⟩, ⟨mn, mx, 1.0⟩, ⟨mn, 1.0, mx⟩, ⟨1.0, mn, mx⟩, ⟨mx, mn, mn⟩, ⟨mx, mx, mn⟩] : List (V3 Float)),
+      (RgbFam.rgbToHsl c).c1.toBits = 0 ∧ (RgbFam.rgbToHsl c).c2.toBits = 0x3ff0000000000000 ∧
+      (RgbFam.rgbToHslMask c).c1.toBits = 0 ∧ (RgbFam.rgbToHslMask c).c2.toBits = 0x3ff0000000000000 := by decide +kernel
+
+/-- the same at `f32`, on the expression (`Float.toFloat32` is opaque to the kernel, so the model cannot be run there): the Rec.2020
+    components of `Hsl<Srgb, f32>(137.5, 0.3217, 0.99999994)` arrive as `max = 1 + 2⁻²³ = 0x3f800001`, `min = 1 − 2⁻²³ = 0x3f7ffffe`
+    (former finding `hsl-white-inf-C07`): `max ≠ min`, `max + min > 1`, the selected divisor is exactly `+0`, the quotient `+inf` -/
+theorem hsl_divisor_zero_f32 :
+    let one := Float32.ofBits 0x3f800000
+    let mx := Float32.ofBits 0x3f800001
+    let mn := Float32.ofBits 0x3f7ffffe
+    mn < mx ∧ one < mx + mn ∧ ((one - mx) + (one - mn)).toBits = 0 ∧
+      ((mx - mn) / ((one - mx) + (one - mn))).toBits = 0x7f800000 ∧ ((mx + mn) / Float32.ofBits 0x40000000).toBits = 0x3f800000 := by
+  decide +kernel
 
 theorem zones_finite (h c x m : ℝ) : (RgbFam.zones (ok h) (ok c) (ok x) (ok m)).Finite := by
   unfold RgbFam.zones
@@ -628,11 +716,20 @@ theorem hsv_to_lab_finite (c : V3 ℝ) :
   · exact rgbToXyz_srgb_finite c
   · rw [whitePoint_D65]; exact xyzToLab_finite d65 c (by norm_num [d65]) (by norm_num [d65]) (by norm_num [d65])
 
-/-- a chain whose intermediate must be tracked: `Hsl<S₁> → Rgb<S₁> → … → Rgb<S₂> → Hsl<S₂>` needs the recovered RGB components `≤ 1`
-    for the last edge (`rgbToHsl_finite`); in exact arithmetic a colour outside the target gamut breaks it (`rgbToHsl_out_of_range_poison`) -/
+/-- a chain whose intermediate was tracked: `Hsl<S₁> → Rgb<S₁> → … → Rgb<S₂> → Hsl<S₂>` needed the recovered RGB components `≤ 1`
+    for the last edge (`rgbToHsl_finite`) before the repair c404fc5; kept as stated.  Since the repair the last edge is total
+    (`rgb_then_hsl_finite_all` below): a colour outside the target gamut is answered by the guard (`rgbToHsl_out_of_range_guarded`) -/
 theorem rgb_then_hsl_finite (f : V3 PReal → V3 PReal) (P : V3 ℝ → Prop)
     (hf : ∀ c, P c → ∃ r : V3 ℝ, f c.lift = r.lift ∧ (r.c0 ≤ 1 ∧ r.c1 ≤ 1 ∧ r.c2 ≤ 1)) (c : V3 ℝ) (hc : P c) :
     (RgbFam.rgbToHsl (f c.lift)).Finite :=
   comp_finite f RgbFam.rgbToHsl P (fun r => r.c0 ≤ 1 ∧ r.c1 ≤ 1 ∧ r.c2 ≤ 1) hf (fun r hr => rgbToHsl_finite r hr.1 hr.2.1 hr.2.2) c hc
+
+/-- **`… → Rgb<S₂> → Hsl<S₂>` without tracking the intermediate** (repair c404fc5): whatever finite RGB colour the chain in front
+    produces -- inside the target gamut or not -- the last edge divides by nothing that is zero -/
+theorem rgb_then_hsl_finite_all (f : V3 PReal → V3 PReal) (P : V3 ℝ → Prop)
+    (hf : ∀ c, P c → (f c.lift).Finite) (c : V3 ℝ) (hc : P c) :
+    (RgbFam.rgbToHsl (f c.lift)).Finite := by
+  obtain ⟨r, hr⟩ := hf c hc
+  rw [hr]; exact rgbToHsl_finite_all r
 
 end C07
